@@ -413,6 +413,11 @@ func (p *parser) parseSwitchStatement() ast.Statement {
 		node.Body = append(node.Body, clause)
 	}
 
+	if node.RightBrace == 0 {
+		// End of input inside the case block: the closing brace is missing.
+		node.RightBrace = p.expect(token.RIGHT_BRACE)
+	}
+
 	if p.mode&StoreComments != 0 {
 		p.comments.CommentMap.AddComments(node, comments, ast.LEADING)
 	}
